@@ -109,4 +109,162 @@ theorem accepted_frame_adds_length (c : Conn) (hc : AtBoundary c) (b0 b1 : UInt8
       c'.r.length = sumBase c (parseHdr b0 b1) + (parseHdr b0 b1).len7 := by
   first | exact ReaderMore.accepted_frame_adds_length .. | (apply ReaderMore.accepted_frame_adds_length <;> assumption)
 
+/-! ### non-vacuity -/
+section NonVacuity
+set_option linter.defProp false
+open WS WS.HdrLogic WS.SrcLaw WS.ReaderRejects WS.Codec WS.ReaderDecodes WS.ReaderLift WS.ReaderMore
+
+/-- a client connection with read limit 128, in the middle of a fragmented message of which 100
+    bytes have been counted (message reader 2 current); pending: a final continuation frame of 64
+    bytes (header 0x80 0x40; only the first payload bytes have arrived), which takes the sum to 164 -/
+def witMid : Conn :=
+  { w := { newW false 4096 false false with keys := [1, 2, 3, 4] },
+    r := { isServer := false, nego := false, limit := 128, length := 100, final := false,
+           msgReader := some 2, nextId := 3,
+           buf := { size := 4096, buf := [0x80, 0x40, 0x61], t := { chunks := [[0x62, 0x63]] }, total := 66 } } }
+
+def witMid_wf : WF witMid.r.buf := ⟨by decide, by decide, by decide, (by intro e h; cases h)⟩
+def witMid_atBoundary : AtBoundary witMid := ⟨rfl, rfl, witMid_wf, by decide⟩
+def witMid_pending : witMid.r.buf.pending = 0x80 :: 0x40 :: [0x61, 0x62, 0x63] := by decide
+def witMid_ok : ¬ Violates witMid.r.isServer witMid.r.nego (!witMid.r.final) (parseHdr 0x80 0x40) := by
+  rw [← headerErrors_nil_iff]; decide
+
+/-- non-vacuity of `limit_refuses`: all eleven hypotheses hold for `witMid` (100 + 64 > 128) -/
+example : ∃ c', advanceFrame witMid = (.error .readLimit, c') ∧ c'.r.buf.pending = [0x61, 0x62, 0x63] ∧ c'.r.hlog = witMid.r.hlog ∧
+      c'.w.wire = witMid.w.wire ++ closeFrameBytes witMid.w (closePayload 1009 []) ∧ c'.w.writeErr = some .closeSent :=
+  limit_refuses witMid witMid_atBoundary ⟨rfl, rfl⟩ 0x80 0x40 _ rfl witMid_pending witMid_ok
+    (by decide) (by decide) (by decide) (by decide) (by decide) (by decide)
+
+/-- the same situation with read limit 101 and the complete frame pending: a final continuation
+    frame carrying "abc" (100 + 3 > 101), followed by a ping -/
+def witMid2 : Conn :=
+  { w := { newW false 4096 false false with keys := [1, 2, 3, 4] },
+    r := { isServer := false, nego := false, limit := 101, length := 100, final := false,
+           msgReader := some 2, nextId := 3,
+           buf := { size := 4096, buf := [0x80, 0x03, 0x61], t := { chunks := [[0x62, 0x63, 0x89, 0x00]] }, total := 7 } } }
+
+def witMid2_mid : MidMessage witMid2 2 :=
+  ⟨rfl, rfl, rfl, rfl, ⟨by decide, by decide, by decide, (by intro e h; cases h)⟩, by decide, by decide⟩
+
+/-- non-vacuity of `read_over_limit_mid_message`: `MidMessage`, `WHealthy`, the pending bytes in the
+    shape header ++ payload ++ rest and the limit hypotheses hold together for `witMid2` -/
+example : ∃ c', mrRead witMid2 2 512 = (([], some .readLimit), c') ∧ c'.r.readErr = some .readLimit ∧
+      c'.r.buf.pending = [0x61, 0x62, 0x63] ++ [0x89, 0x00] ∧
+      c'.w.wire = witMid2.w.wire ++ closeFrameBytes witMid2.w (closePayload 1009 []) :=
+  read_over_limit_mid_message witMid2 2 witMid2_mid ⟨rfl, rfl⟩ rfl true [0x61, 0x62, 0x63] [0x89, 0x00] (by decide)
+    (by decide) (by decide) (by decide) (by decide) (by decide) 512 (by decide)
+
+/-- a client connection with read limit 128 whose application abandoned the previous message after
+    100 counted bytes (`length = 100` left behind, reader at a frame boundary with `final = true`);
+    pending: a new final text frame of 64 bytes -/
+def witAbandoned : Conn :=
+  { w := { newW false 4096 false false with keys := [1, 2, 3, 4] },
+    r := { isServer := false, nego := false, limit := 128, length := 100, final := true, nextId := 3,
+           buf := { size := 4096, buf := [0x81, 0x40, 0x61], t := { chunks := [[0x62, 0x63]] }, total := 66 } } }
+
+def witAbandoned_atBoundary : AtBoundary witAbandoned :=
+  ⟨rfl, rfl, ⟨by decide, by decide, by decide, (by intro e h; cases h)⟩, by decide⟩
+def witAbandoned_ok : ¬ Violates witAbandoned.r.isServer witAbandoned.r.nego (!witAbandoned.r.final) (parseHdr 0x81 0x40) := by
+  rw [← headerErrors_nil_iff]; decide
+
+/-- non-vacuity of `new_message_restarts_sum` -/
+example : ∃ c', advanceFrame witAbandoned = (.ok 1, c') ∧ c'.r.length = (64 : Nat) ∧
+      c'.r.buf.pending = [0x61, 0x62, 0x63] ∧ c'.w = witAbandoned.w :=
+  new_message_restarts_sum witAbandoned witAbandoned_atBoundary 0x81 0x40 [0x61, 0x62, 0x63] rfl (by decide) witAbandoned_ok
+    (Or.inl (by decide)) (by decide) (by decide)
+
+/-- non-vacuity of `accepted_frame_adds_length` (a text frame: the sum restarts at 0 + 64 ≤ 128) … -/
+example : ∃ res c', advanceFrame witAbandoned = (res, c') ∧ (∀ e, res ≠ .error e) ∧
+      c'.r.length = sumBase witAbandoned (parseHdr 0x81 0x40) + (parseHdr 0x81 0x40).len7 :=
+  accepted_frame_adds_length witAbandoned witAbandoned_atBoundary 0x81 0x40 [0x61, 0x62, 0x63] rfl (by decide) witAbandoned_ok
+    (by decide) (by decide) (by decide) (by decide) (Or.inr (by decide))
+
+/-- … and (a continuation frame of 20 bytes inside a message: 100 + 20 ≤ 128) -/
+def witMid3 : Conn :=
+  { w := { newW false 4096 false false with keys := [1, 2, 3, 4] },
+    r := { isServer := false, nego := false, limit := 128, length := 100, final := false,
+           msgReader := some 2, nextId := 3,
+           buf := { size := 4096, buf := [0x00, 0x14, 0x61], t := { chunks := [[0x62, 0x63]] }, total := 22 } } }
+
+example : ∃ res c', advanceFrame witMid3 = (res, c') ∧ (∀ e, res ≠ .error e) ∧
+      c'.r.length = sumBase witMid3 (parseHdr 0x00 0x14) + (parseHdr 0x00 0x14).len7 :=
+  accepted_frame_adds_length witMid3 ⟨rfl, rfl, ⟨by decide, by decide, by decide, (by intro e h; cases h)⟩, by decide⟩
+    0x00 0x14 [0x61, 0x62, 0x63] rfl (by decide) (by rw [← headerErrors_nil_iff]; decide)
+    (by decide) (by decide) (by decide) (by decide) (Or.inr (by decide))
+
+example : sumBase witMid3 (parseHdr 0x00 0x14) + (parseHdr 0x00 0x14).len7 = 120 := by decide
+
+/-- an idle client reader with read limit 128 facing a binary frame whose 64-bit length field has the
+    top bit set (0x8000000000000010), one more byte behind it -/
+def witTop : Conn :=
+  { w := { newW false 4096 false false with keys := [1, 2, 3, 4] },
+    r := { isServer := false, nego := false, limit := 128,
+           buf := { size := 4096, buf := [], t := { chunks := [[0x82, 0x7F, 0x80, 0, 0], [0, 0, 0, 0, 0x10, 0xAA]] }, total := 11 } } }
+
+/-- non-vacuity of `limit_topbit` -/
+example : ∃ c', advanceFrame witTop = (.error .readLimit, c') ∧ c'.r.hlog = witTop.r.hlog ∧ c'.r.buf.pending = [0xAA] ∧
+      c'.w.wire = witTop.w.wire ++ closeFrameBytes witTop.w (closePayload 1009 []) ∧ c'.w.writeErr = some .closeSent :=
+  limit_topbit witTop ⟨rfl, rfl, ⟨by decide, by decide, by decide, (by intro e h; cases h)⟩, by decide⟩ ⟨rfl, rfl⟩
+    0x82 0x7F [0x80, 0, 0, 0, 0, 0, 0, 0x10] [0xAA] (by decide) rfl
+    (by rw [← headerErrors_nil_iff]; decide) (by decide) (by decide)
+
+/-- a text message "Hello" from a server in two fragments with a 3-byte ping in between -/
+def witMsg : List PFrame :=
+  [{ op := 1, fin := false, key := default, payload := [0x48, 0x65, 0x6c] },
+   { op := 9, fin := true, key := default, payload := [1, 2, 3] },
+   { op := 0, fin := true, key := default, payload := [0x6c, 0x6f] }]
+
+def witMsg_shape : MsgShape 1 witMsg :=
+  MsgShape.frag _ _ rfl rfl (by decide)
+    (Tail.ctl _ _ ⟨Or.inl rfl, rfl, by decide⟩ (Tail.last _ rfl rfl (by decide)))
+
+/-- an idle client reader with read limit exactly 5 = |"Hello"| (the ping's 3 bytes do not count);
+    the transport delivers the 14 wire bytes in two chunks and then a close frame header -/
+def witExact : Conn :=
+  { w := { newW false 4096 false false with keys := [1, 2, 3, 4] },
+    r := { isServer := false, nego := false, limit := 5,
+           buf := { size := 4096, buf := [],
+                    t := { chunks := [(encAll false witMsg).take 6, (encAll false witMsg).drop 6 ++ [0x88, 0x00]] }, total := 16 } } }
+
+def witExact_idle : ReaderIdle witExact :=
+  ⟨rfl, rfl, rfl, ⟨by decide, by decide, by decide, (by intro e h; cases h)⟩, by decide, by decide,
+    (by intro id h; cases h), (by intro id h; cases h)⟩
+
+/-- non-vacuity of `limit_admits`: reads of 3 bytes -/
+example : ∃ c1 rid, nextReader witExact = (.msg 1 rid false, c1) ∧
+      ∃ c2, readAll c1 rid 3 = (([0x48, 0x65, 0x6c, 0x6c, 0x6f], none), c2) ∧ ReaderIdle c2 ∧ c2.r.buf.pending = [0x88, 0x00] :=
+  limit_admits witExact witExact_idle 1 (Or.inl rfl) witMsg witMsg_shape [0x88, 0x00] (by decide) (Or.inl rfl)
+    (by decide) (by decide) 3 (by decide)
+
+/-- an idle client reader with read limit 4 facing an unfragmented 10-byte binary message and then a ping -/
+def witOver : Conn :=
+  { w := { newW false 4096 false false with keys := [1, 2, 3, 4] },
+    r := { isServer := false, nego := false, limit := 4, hlog := [.ping []],
+           buf := { size := 4096, buf := [0x82, 0x0A, 0, 1, 2],
+                    t := { chunks := [[3, 4, 5, 6, 7, 8, 9, 0x89, 0x00]] }, total := 14 } } }
+
+def witOver_idle : ReaderIdle witOver :=
+  ⟨rfl, rfl, rfl, ⟨by decide, by decide, by decide, (by intro e h; cases h)⟩, by decide, by decide,
+    (by intro id h; cases h), (by intro id h; cases h)⟩
+
+/-- non-vacuity of `nextReader_over_limit` -/
+example : ∃ c', nextReader witOver = (if witOver.r.errCount + 1 ≥ 1000 then NRRes.panic else .err .readLimit, c') ∧
+      c'.r.readErr = some .readLimit ∧
+      c'.r.buf.pending = [0, 1, 2, 3, 4, 5, 6, 7, 8, 9] ++ [0x89, 0x00] ∧
+      c'.w.wire = witOver.w.wire ++ closeFrameBytes witOver.w (closePayload 1009 []) :=
+  nextReader_over_limit witOver witOver_idle ⟨rfl, rfl⟩ rfl 2 (Or.inr rfl) [0, 1, 2, 3, 4, 5, 6, 7, 8, 9] [0x89, 0x00]
+    (by decide) (by decide) (by decide) (by decide)
+
+/-- non-vacuity of `nextReader_over_limit_reachable`: additionally `CountInv` -/
+example : ∃ c', nextReader witOver = (.err .readLimit, c') ∧ c'.r.readErr = some .readLimit ∧
+      c'.r.buf.pending = [0, 1, 2, 3, 4, 5, 6, 7, 8, 9] ++ [0x89, 0x00] ∧
+      c'.w.wire = witOver.w.wire ++ closeFrameBytes witOver.w (closePayload 1009 []) :=
+  nextReader_over_limit_reachable witOver witOver_idle (fun _ => rfl) ⟨rfl, rfl⟩ rfl 2 (Or.inr rfl)
+    [0, 1, 2, 3, 4, 5, 6, 7, 8, 9] [0x89, 0x00] (by decide) (by decide) (by decide) (by decide)
+
+/-- evaluated: the 1009 close frame (masked with the first key of the key source) is the whole wire -/
+example : (nextReader witOver).2.w.wire = [0x88, 0x82, 1, 2, 3, 4, 3 ^^^ 1, 0xF1 ^^^ 2] := by decide
+
+end NonVacuity
+
 end WS.Props.C06
